@@ -200,3 +200,11 @@ def r6(fx):
                  got='; '.join(probs) or 'as required', want='as required')
         yield ob(f'{tag}: capacity = SYMBOL_CAPACITY[version][level after boosting] for terminator and pad codewords', not [p_ for p_ in probs if 'capacity' in p_ or 'final message built' in p_],
                  fn, got='; '.join(probs) or 'as required', want='as required')
+
+
+@rule('C13', 'R7', 160, 'the remainder bits after the last codeword are zero and as many as the version needs (final message for every version and level, shared with C03.R5)')
+def r7(fx):
+    from . import p03
+    for o in p03.r5(fx):
+        if o.key.startswith('final message v'):
+            yield o
